@@ -333,9 +333,10 @@ void DeviceManager::RestorePortSettings(const vector<PortClass*> &ports) const {
     if (uni_id.empty())
       continue;
 
-    errno = 0;
-    int id = static_cast<int>(strtol(uni_id.c_str(), NULL, 10));
-    if ((id == 0 && errno) || id < 0)
+    // Universe ids are unsigned ints, parsing them as an int dropped the
+    // patchings for universes above INT_MAX.
+    unsigned int id;
+    if (!StringToInt(uni_id, &id))
       continue;
 
     m_port_manager->PatchPort(port, id);
